@@ -837,6 +837,12 @@ func checkC13(c *Ctx) {
 			c13RunList(c, i-nBig, maxLen, &stats[i])
 		}
 	})
+	// the same kind of lists once more with the process temp directory somewhere awkward
+	withTmpdirVariants(c, func(tag string) {
+		extra := make([]c13Stats, 24)
+		parallelFor(len(extra), func(i int) { c13RunList(c, 7000000+i, 600, &extra[i]) })
+		stats = append(stats, extra...)
+	})
 	for i := range stats {
 		s := stats[i]
 		total.bytes += s.bytes
